@@ -91,7 +91,21 @@ early, titles beginning with `keep` or other directive-like words, names beginni
 upper-case `0X` / `E` in numerals, the last sfx pattern (63), music flag bits, the first code token being an identifier,
 members of kept tables, dispatch tables with a missing entry, `^^`, the field order of AST nodes, printast, luafmt falling back
 to another formatter, the line break after `[[`, whitespace at line ends in the .p8 reader, a digit 9 after a numeric escape,
-an escaped backslash before a closing quote, `.png` spritesheets as --gfx sources, sfx filter bits.
+an escaped backslash before a closing quote, `.png` spritesheets as --gfx sources, sfx filter bits, keep-file names of 16 or
+more characters or of one character, blank lines in the keep file, an existing destination longer than the new file (no
+truncation), a `]]` earlier in a one-chunk source, an early exit of the compressor at the size limit, sprite-sheet bytes read as
+the code header, eagerly formatted debug messages, `\\u{...}`, zero-padded decimal escapes, upper-case digits in `\\x` escapes,
+numeric escapes that decode to a backslash, the other quote inside a plain string, `0x.8` / `0b.1`, `if (cond) do`, calls in
+compound-assignment targets, duplicate table keys, string-call method arguments (`o:m"s"`), `//` header comments, conditions
+continued over lines, CR LF in luafmt, KeyboardInterrupt / SystemExit from a writer, a restore-on-failure that rewrites the cart,
+a reparse after the copy, an #include fallback in enclosing folders, `./` load path entries, cart packages (`?.p8`) with
+includes, stale token positions after stripping, the same package required twice with different options, two packages that both
+keep `_update`, the O-button glyph's variation selector, kana refused for old versions, `line[:-0]`, one-colour gfx rows, pixels
+skipped when only the top two bits differ, the blank line before `__gff__`, odd-width sprite rows at the right edge,
+`note_duration` 0, `[row] * 8` aliasing in get_rect_pixels, `Gff.set_flags` OR-ing, map writes that start in mid-row,
+unanchored `find`, identical first two comments, multi-line block comments as line breaks, rulers / glyph-only titles,
+a held-back last included line, consecutive #include lines, `:01` tab selectors, sfx `loop_end`, a first code line that is
+empty, the last byte of a gfx row, labels following --gfx.
 Look for something else, for example: a mask, shift or bit position that is off by one; signed/unsigned or 7-bit/8-bit handling;
 an inclusive/exclusive range end; integer division or rounding; the order in which two sections / options / passes are applied;
 an interaction between two command-line options or two library features that are each fine alone; a module-level table or
